@@ -135,6 +135,20 @@ class Machine:
         return [A("st"), n.id, type(n).__name__, [k.__name__ for k in type(n).__mro__]] + \
             [self.ser_tree(c) for _n, _c, ns in zoo.kid_lists(n) for c in ns]
 
+    def dict_tree(self, d):
+        """(id, class, mro, children in order) read off the REAL `as_dict()` output (nested node dicts, dict order)"""
+        from pyoak.serialize import TYPE_KEY, TYPES
+        cls = TYPES[d[TYPE_KEY]]
+        kids = []
+        for k, val in d.items():
+            if k == "origin":
+                continue
+            if isinstance(val, dict) and "content_id" in val:
+                kids.append(val)
+            elif isinstance(val, (list, tuple)):
+                kids.extend(x for x in val if isinstance(x, dict) and "content_id" in x)
+        return [A("st"), d["id"], cls.__name__, [k.__name__ for k in cls.__mro__]] + [self.dict_tree(c) for c in kids]
+
     def _fresh_sexp(self):
         return [A("fresh")] + [[t, b] for t, b in self.fresh]
 
@@ -184,8 +198,10 @@ class Machine:
     def _push(self, op, out, descr):
         self._last_descr = descr
         gets = self._gets()
-        self.ops.append([A("op"), op, [A("gets")] + [[c, k, s] for c, k, s in gets]])
-        self.obs.append(self._observe(out, gets))
+        serof, self._serof = getattr(self, "_serof", None), None
+        self.ops.append([A("op"), op, [A("gets")] + [[c, k, s] for c, k, s in gets]]
+                        + ([[A("serof"), serof[0]]] if serof else []))
+        self.obs.append(self._observe(out, gets) + ([[A("serof"), serof[1]]] if serof else []))
         self.descr.append(descr)
 
     # ---- operations
@@ -483,6 +499,8 @@ class Machine:
         via = self.rng.choice([cls, cls, zoo.Expr, ASTNode, zoo.Leaf, zoo.Tup])
         n = via.as_obj(d)
         op = [A("asobj"), v, st, self._fresh_sexp()]
+        # tie of the model's serializer: `RState.serOf` of object #tx (driver) = the real as_dict() payload, projected
+        self._serof = (tx, self.dict_tree(d))
         self.vars[v] = n
         t = self.tok(n)
         del n
